@@ -7,7 +7,7 @@ from .c01 import r7_mirror
 
 PID = "C04"
 META = {
-    "explanation": "Static analysis of RangeIter / RevRangeIter on the MIR of the current tree: the bound-membership functions are decoded into a 3-arm table per side (Unbounded -> true, Included -> reflexive relation, Excluded -> irreflexive relation, operands `key REL bound`), the first-call positioning into a 3-arm table per direction (first/last, seek, seek + one conditional step on equality), every yielded entry is control-dependent on the far-side membership test of exactly the key being yielded, the first-call flag is consumed once, bounds are copied variant-preserving, and the two directions are mirror images. The table is exhaustive over Bound variants; correctness of the underlying seeks is C02.",
+    "explanation": "Static analysis of RangeIter / RevRangeIter on the MIR of the current tree: the bound-membership functions are decoded into a 3-arm table per side (Unbounded -> true, Included -> reflexive relation, Excluded -> irreflexive relation, operands `key REL bound`), the first-call positioning into a 3-arm table per direction (first/last, seek, seek + one conditional step on equality), every yielded entry is control-dependent on the far-side membership test of exactly the key being yielded, the first-call flag is consumed once, bounds are copied variant-preserving, and the two directions are mirror images. The table is exhaustive over Bound variants; correctness of the underlying seeks is C02. The iterators run on this cursor over files this Writer emits: the shared file-wellformedness and cursor-traversal rules (rules/shared.py), including the in-block backward step, are re-run as necessary conditions.",
     "assumptions": ["core::cmp lexicographic ordering on [u8]", "the seeks of C02"],
 }
 
@@ -38,6 +38,9 @@ def run(ck):
         ck.guard("C04-R7", r2_descent, ck, F, "C04-R7")
         ck.guard("C04-R7", r3_rel, ck, F, "C04-R7")
         ck.guard("C04-R7", r4_offsets, ck, F, "C04-R7")
+        from . import shared
+        shared.file_wellformed(ck, F, "C04-R8")
+        shared.cursor_traversal(ck, F, "C04-R6")
     ck.exhaustive = True
     ck.trusted += ["rustc MIR construction", "core::cmp slice ordering", "std::ops::Bound / RangeBounds for (Bound<T>, Bound<T>)"]
 
